@@ -98,7 +98,7 @@ theorem checkSecblk_ok (q : Quirks) (a : Asb) (h : (hasDup a.paramIds || a.resul
     exact Or.inr ht.2
 
 theorem checkResults_notrap (q : Quirks) : ∀ (rs : List (List Nat)), rs.any (fun r => r.isEmpty) = false →
-    checkResults q rs = checkResults Quirks.fixed rs ∧ checkResults Quirks.fixed rs ≠ .raises
+    checkResults q rs = checkResults Quirks.current rs ∧ checkResults Quirks.current rs ≠ .raises
   | [], _ => ⟨rfl, by simp [checkResults]⟩
   | r :: rs, h => by
     simp only [List.any_cons, Bool.or_eq_false_iff] at h
@@ -110,7 +110,7 @@ theorem checkResults_notrap (q : Quirks) : ∀ (rs : List (List Nat)), rs.any (f
     · exact ⟨ih1, ih2⟩
 
 theorem checkSecblk_notrap (q : Quirks) (a : Asb) (h : noneTrap a = false) :
-    checkSecblk q a = checkSecblk Quirks.fixed a ∧ checkSecblk Quirks.fixed a ≠ .raises := by
+    checkSecblk q a = checkSecblk Quirks.current a ∧ checkSecblk Quirks.current a ≠ .raises := by
   simp only [noneTrap, Bool.or_eq_false_iff] at h
   obtain ⟨r1, r2⟩ := checkResults_notrap q a.results h.2
   unfold checkSecblk
@@ -716,7 +716,7 @@ theorem stepRun_clean (q : Quirks) (e : Env) (tc : Nat) (htc : tc = typeBib ∨ 
     obtain ⟨hm, hsel⟩ := List.mem_filter.mp hbm
     exact ⟨hsel, hb b hm⟩
 
-/-! ## The region where the quirks of the existing code cannot bite -/
+/-! ## Bundles on which verification cannot change the block list (no acceptance, nothing raises) -/
 
 /-- no target lookup, result lookup or cryptographic step raises -/
 def targetsNoRaise (orc : Nat → Outcome) (pres : Nat → Bool) (results : List (List Nat)) :
@@ -789,12 +789,12 @@ theorem verifyAsb_const (e : Env) (tc : Nat) (st : List Blk) (num : Nat) (a : As
   obtain ⟨⟨⟨ht, hc⟩, hx⟩, hn⟩ := hq
   have htne : a.targets ≠ [] := by simpa using ht
   have hnt : noneTrap a = false := by simpa using hc
-  have hcq : ∀ q, checkSecblk q a = checkSecblk Quirks.fixed a := fun q => (checkSecblk_notrap q a hnt).1
+  have hcq : ∀ q, checkSecblk q a = checkSecblk Quirks.current a := fun q => (checkSecblk_notrap q a hnt).1
   by_cases h1 : (a.ctxId != coseContextId) = true
   · exact ⟨some (.code reasonUnknownSec), fun q => by simp [verifyAsb, h1]⟩
-  · cases h2 : checkSecblk Quirks.fixed a with
+  · cases h2 : checkSecblk Quirks.current a with
     | bad => exact ⟨some (.code reasonFailedSec), fun q => by simp [verifyAsb, h1, hcq q, h2]⟩
-    | raises => exact absurd h2 (checkSecblk_notrap Quirks.fixed a hnt).2
+    | raises => exact absurd h2 (checkSecblk_notrap Quirks.current a hnt).2
     | ok =>
       obtain ⟨f, a', hl, ha1, _⟩ := targetLoop_noaccept (tc == typeBcb) (e.orc num) (present st) a.results
         a.targets 0 false true [] hn
@@ -805,7 +805,7 @@ theorem verifyAsb_const (e : Env) (tc : Nat) (st : List Blk) (num : Nat) (a : As
 
 theorem verifyBlock_const (e : Env) (tc : Nat) (st : List Blk) (b : Blk)
     (hacc : e.accept = false) (hq : blkNoQuirk e (present st) b = true) :
-    ∀ q, verifyBlock q e tc st b = (st, (verifyBlock Quirks.fixed e tc st b).2) := by
+    ∀ q, verifyBlock q e tc st b = (st, (verifyBlock Quirks.current e tc st b).2) := by
   intro q
   unfold blkNoQuirk at hq
   cases hp : b.pl with
@@ -815,14 +815,24 @@ theorem verifyBlock_const (e : Env) (tc : Nat) (st : List Blk) (b : Blk)
     obtain ⟨r, hr⟩ := verifyAsb_const e tc st b.num a hacc hq
     simp [verifyBlock, hp, hr]
 
-/-- A step of the code as it is, on such a bundle: nothing changes and every block of the step's
-    type contributes its verdict. -/
-theorem stepRun_const (q : Quirks) (hq : q.skipAfterRemove = true) (e : Env) (tc : Nat)
+theorem iterCopy_const (q : Quirks) (e : Env) (tc : Nat) (st : List Blk) :
+    ∀ (bs : List Blk) (acc : List Fail), (∀ b ∈ bs, (verifyBlock q e tc st b).1 = st) →
+      iterCopy q e tc bs st acc =
+        (st, acc ++ bs.flatMap (fun b => optList (verifyBlock q e tc st b).2))
+  | [], acc, _ => by simp [iterCopy]
+  | b :: bs, acc, h => by
+    simp only [iterCopy]
+    rw [h b (by simp), iterCopy_const q e tc st bs _ (fun x hx => h x (by simp [hx]))]
+    simp [List.append_assoc]
+
+/-- A step on such a bundle: nothing changes and every block of the step's type contributes its
+    verdict (either iteration scheme). -/
+theorem stepRun_const (q : Quirks) (e : Env) (tc : Nat)
     (htc : tc = typeBib ∨ tc = typeBcb) (st : List Blk) (hacc : e.accept = false)
     (hwell : ∀ b ∈ st, isSec b = true → blkNoQuirk e (present st) b = true) :
     stepRun q e tc st =
       (st, (st.filter (fun b => b.typeCode == tc)).flatMap
-        (fun b => optList (verifyBlock Quirks.fixed e tc st b).2)) := by
+        (fun b => optList (verifyBlock Quirks.current e tc st b).2)) := by
   have hsel : st.filter (sel q tc) = st.filter (fun b => b.typeCode == tc) := by
     apply List.filter_congr
     intro b hb
@@ -848,39 +858,45 @@ theorem stepRun_const (q : Quirks) (hq : q.skipAfterRemove = true) (e : Env) (tc
   have hlen : (st.filter (sel q tc)).length ≤ 0 + (st.length + 1) := by
     have := List.length_filter_le (sel q tc) st
     omega
-  simp only [stepRun, hq, ↓reduceIte]
-  rw [iterIdx_const q e tc st hconst (st.length + 1) 0 [] hlen]
-  simp only [List.drop_zero, List.nil_append, Prod.mk.injEq, true_and]
-  rw [← hsel]
-  apply flatMap_congr'
-  intro b hb
-  obtain ⟨hm, hs⟩ := List.mem_filter.mp hb
-  rw [verifyBlock_const e tc st b hacc (hwell b hm (sel_isSec q tc htc b hs)) q]
+  have hcongr : (st.filter (sel q tc)).flatMap (fun b => optList (verifyBlock q e tc st b).2) =
+      (st.filter (sel q tc)).flatMap (fun b => optList (verifyBlock Quirks.current e tc st b).2) := by
+    apply flatMap_congr'
+    intro b hb
+    obtain ⟨hm, hs⟩ := List.mem_filter.mp hb
+    rw [verifyBlock_const e tc st b hacc (hwell b hm (sel_isSec q tc htc b hs)) q]
+  unfold stepRun
+  split
+  · rw [iterIdx_const q e tc st hconst (st.length + 1) 0 [] hlen]
+    simp only [List.drop_zero, List.nil_append, Prod.mk.injEq, true_and]
+    rw [hcongr, hsel]
+  · rw [iterCopy_const q e tc st _ [] hconst]
+    simp only [List.nil_append, Prod.mk.injEq, true_and]
+    rw [hcongr, hsel]
 
 theorem flatMap_fails_ne (e : Env) (tc : Nat) (st : List Blk) (b : Blk) (hb : b ∈ st)
     (htc : b.typeCode = tc) (hd : blkDefect e (present st) b = true) :
     (st.filter (fun b => b.typeCode == tc)).flatMap
-      (fun b => optList (verifyBlock Quirks.fixed e tc st b).2) ≠ [] := by
+      (fun b => optList (verifyBlock Quirks.current e tc st b).2) ≠ [] := by
   intro h
   rw [List.flatMap_eq_nil_iff] at h
   have := h b (List.mem_filter.mpr ⟨hb, by simp [htc]⟩)
-  have hf := verifyBlock_fails Quirks.fixed e tc st b hd
-  cases hv : (verifyBlock Quirks.fixed e tc st b).2 with
+  have hf := verifyBlock_fails Quirks.current e tc st b hd
+  cases hv : (verifyBlock Quirks.current e tc st b).2 with
   | none => simp [hv] at hf
   | some g => simp [hv, optList] at this
 
 theorem flatMap_codes (e : Env) (tc : Nat) (st : List Blk) :
     ∀ f ∈ (st.filter (fun b => b.typeCode == tc)).flatMap
-      (fun b => optList (verifyBlock Quirks.fixed e tc st b).2), f.isSecCode = true := by
+      (fun b => optList (verifyBlock Quirks.current e tc st b).2), f.isSecCode = true := by
   intro f hf
   simp only [List.mem_flatMap] at hf
   obtain ⟨b, _, hfb⟩ := hf
-  cases hv : (verifyBlock Quirks.fixed e tc st b).2 with
+  cases hv : (verifyBlock Quirks.current e tc st b).2 with
   | none => simp [hv, optList] at hfb
   | some g =>
     simp only [hv, optList, List.mem_singleton] at hfb
     rw [hfb]
-    exact verifyBlock_code Quirks.fixed rfl e tc st b g hv
+    exact verifyBlock_code Quirks.current rfl e tc st b g hv
 
 end SecChain
 end DtnVerif
